@@ -174,6 +174,42 @@ def r15_2(chk, mod):
             ok = (len(seq) == 3 and seq[0] == (C.LITERAL, ord("(")) and seq[2] == (C.LITERAL, ord(")"))
                   and seq[1][0] is C.MAX_REPEAT and seq[1][1][0] >= 1)
     chk.ob("R15.2", MOD, "NUM_ERR_REGEX", "the last group is an optional '(' digits ')' standard uncertainty", ok, node=node, found=pat)
+    # value types: an int only for digit-only text, a float otherwise; the text is converted directly (no detour through float)
+    coerces = [e for e in ev.events if e.kind == "call" and (call_name(e.value.as_atom() or ()) or "").endswith(".is_integer")]
+    int_calls = [e for e in ev.events if e.kind == "call" and call_name(e.value.as_atom() or ()) == "int" and "groups()[0]" in e.value.key()]
+    int_guarded = bool(int_calls) and all(any(pol and "fullmatch" in c.key() and "\\d" in c.key() and "." not in c.key().split("fullmatch(")[1].split(",")[0].replace("\\d", "")
+                                               for c, pol in e.guards) for e in int_calls)
+    if not int_guarded and int_calls:
+        for r in ev.returns:
+            for a in find_atoms(r.value, lambda a: a[0] == "ite"):
+                if "fullmatch" in a[1].key() and "\\d" in a[1].key() and call_name(a[2].as_atom() or ()) == "int" and "groups()[0]" in a[2].key():
+                    int_guarded = True
+    via_float = any("float" in str(e.extra.get("args", [""])[0]) or "number" == str(e.extra.get("args", [""])[0]) for e in int_calls)
+    chk.ob("R15.2", MOD, q, "value types are kept: the result is an int only when the text is digits only (a float such as '2.0' stays a float, "
+           "integers are converted from the text, not through float)", not coerces and int_guarded and not via_float, fingerprint="number-type",
+           expected="int(text) under a digits-only match, float(text) otherwise",
+           found=("integral floats are turned into ints with .is_integer(); " if coerces else "") + str([str(e.value)[:60] for e in int_calls])[:160])
+    # the number language is a subset of what float() accepts: '.' is the only decimal mark
+    marks = set()
+
+    def walk(items):
+        for op, av in items:
+            if op is C.IN:
+                lits = {chr(v) for o2, v in av if o2 is C.LITERAL}
+                if lits and lits <= set(".,"):
+                    marks.update(lits)
+            elif op is C.SUBPATTERN:
+                walk(av[3])
+            elif op in (C.MAX_REPEAT, C.MIN_REPEAT):
+                walk(av[2])
+            elif op is C.BRANCH:
+                for br in av[1]:
+                    walk(br)
+            elif op is C.LITERAL and chr(av) in ".,":
+                marks.add(chr(av))
+    walk(tree)
+    chk.ob("R15.2", MOD, "NUM_ERR_REGEX", "the decimal mark of the number pattern is '.' only (float() rejects ',')", marks == {"."}, node=node,
+           fingerprint="decimal-mark", expected="{'.'}", found=sorted(marks))
     first = tree[0]
     chk.ob("R15.2", MOD, "NUM_ERR_REGEX", "group 1 (the number) opens the pattern",
            first[0] is C.SUBPATTERN and first[1][0] == 1, node=node, found=pat)
@@ -191,6 +227,26 @@ def r15_3(chk, mod):
     pred_loop = [e for e in ff.events if e.kind == "call" and call_name(e.value.as_atom() or ()) == "needs_quote"]
     chk.ob("R15.3", MOD, "Cif.to_string", "scalar items are quoted by the predicate needs_quote", bool(pred_scalar))
     chk.ob("R15.3", MOD, "format_field", "loop fields are quoted by the same predicate needs_quote", bool(pred_loop))
+    # what the predicate must say yes to: a string that written bare would not be read back as that one value
+    nq = mod.ev("needs_quote")
+    chk.saw(MOD, "needs_quote")
+    sp = nq.param_names[0]
+    empty = any(r.value.key() == "True" and any(pol and c.key() in (f"(eq '' {sp})", f"(eq {sp} '')", f"(not {sp})", f"(eq 0 len({sp}))") for c, pol in r.guards)
+                for r in nq.returns)
+    chk.ob("R15.3", MOD, "needs_quote", "the empty string is quoted (written bare there is no value and the reader takes the next line)", empty,
+           fingerprint="quote-empty", found=[f"{r.value} if {[('' if p else 'not ') + str(c)[:40] for c, p in r.guards][-1:]}" for r in nq.returns][:4])
+    gtext = " ".join(c.key() for r in nq.returns for c, pol in r.guards)
+    reserved = all(tok in gtext for tok in ("_", "#", "data_", "loop_")) and (f"{sp}[0]" in gtext or "startswith" in gtext)
+    chk.ob("R15.3", MOD, "needs_quote", "a string starting with a reserved token ('_', '#', 'data_', 'loop_') is quoted (bare, the reader takes the line "
+           "for a data name, a comment or a new block and ends the loop)", reserved, fingerprint="quote-reserved", found=gtext[:200])
+    # one parse per value: parse_data_name hands the raw text to parse_value exactly once
+    pd = mod.ev("Cif.parse_data_name")
+    chk.saw(MOD, "Cif.parse_data_name")
+    st = [e for e in pd.events if e.kind == "store" and "current_data_block" in e.target.key()]
+    chk.need(st, "Cif.parse_data_name: store into the current data block not found")
+    nested = [e for e in st if e.value.key().count("parse_value(") > 1]
+    chk.ob("R15.3", MOD, "Cif.parse_data_name", "a value is parsed once (parse_value is applied to text, never to an already parsed value)", not nested,
+           node=nested[0].node if nested else None, fingerprint="single-parse", found=str(nested[0].value)[:160] if nested else None)
     # delimiters used
     delims = set()
     for e in ff.returns:
@@ -384,9 +440,19 @@ def r15_5(chk, mod):
                     typ = a[2][1].key()
             seen[typ] = pcs[0].spec
     fl, it = seen.get("float"), seen.get("int")
-    chk.ob("R15.5", MOD, "format_field", "floats are written fixed-point ('f') with an explicit precision and no grouping",
-           fl is not None and fl.type == "f" and fl.prec is not None and fl.valid and fl.fill in (None, " ") and fl.group is None,
-           found=fl.text if fl else None)
+    from ..layout import float_roundtrips
+    flp = None
+    for e in ff.returns:
+        pcs = pieces_of(e.value)
+        if pcs and len(pcs) == 1 and pcs[0].kind == "fmt" and any(pol and call_name(c.as_atom() or ()) == "isinstance" and c.as_atom()[2][1].key() == "float"
+                                                                  for c, pol in e.guards):
+            flp = pcs[0]
+    chk.ob("R15.5", MOD, "format_field", "floats are written so that they read back to the same value (repr, or >= 17 significant digits): a fixed number "
+           "of decimals loses small values", flp is not None and float_roundtrips(flp) and fl.valid and fl.group is None and fl.type in (None, "", "s", "e", "g", "E", "G"),
+           fingerprint="float-roundtrip", expected="f'{float(x)!r:>20}'", found=repr(flp))
+    chk.ob("R15.5", MOD, "format_field", "the float text is in the reader's number language (repr of a finite float: digits, '.', optional e[+-]dd)",
+           flp is not None and (flp.conv == "r" and call_name(flp.value.as_atom() or ()) in ("float", None) or flp.spec.type in ("e", "g", "f")),
+           fingerprint="float-language", found=repr(flp))
     chk.ob("R15.5", MOD, "format_field", "integers are written with 'd' and no grouping",
            it is not None and it.type == "d" and it.valid and it.fill in (None, " ") and it.group is None, found=it.text if it else None)
     # the int branch must not capture bools/floats: float test precedes
